@@ -84,7 +84,9 @@ def run_case(acc, case):
         acc['ctr']['fault_runs_with_a_long_busy_phase'] += 1
     optimize = rng.random() < 0.3
     acc['ctr']['fault_runs_without_asserts'] += optimize
-    r = dfusim.run(fw, dev, optimize=optimize)
+    tty = rng.random() < 0.35
+    acc['ctr']['fault_runs_on_a_terminal'] += tty
+    r = dfusim.run(fw, dev, optimize=optimize, tty=tty)
     # operation index -> step name for the message: npages erases, then (set-address, write) per page
     def step(k):  # noqa
         if k < npages:
